@@ -13,7 +13,13 @@ def main():
     assert len(triples) % 3 == 0
     repo = os.environ.get('REPO', '/repo')
     tmp = tempfile.mkdtemp(prefix='mkmut.')
+    base = os.environ.get('BASE', '')   # corpus patch (relative to /verif) to apply first
     try:
+        if base:
+            bt = os.path.join(tmp, 'base')
+            subprocess.run(['rsync', '-a', '--exclude', '.git', '--exclude', '/dirk', repo + '/', bt + '/'], check=True)
+            subprocess.run(['patch', '-p1', '-s', '--no-backup-if-mismatch', '-i', os.path.join('/verif', base)], cwd=bt, check=True)
+            repo = bt
         diffs = []
         files = {}
         for i in range(0, len(triples), 3):
@@ -33,7 +39,7 @@ def main():
         outdir = os.path.join('/verif', kind, prop)
         os.makedirs(outdir, exist_ok=True)
         with open(os.path.join(outdir, name + '.patch'), 'w') as fh:
-            fh.write(f"# property: {prop}\n# expect: {expect}\n# description: {desc}\n")
+            fh.write(f"# property: {prop}\n# expect: {expect}\n# description: {desc}\n" + (f"# base: {base}\n" if base else ''))
             fh.write(''.join(diffs))
         print('wrote', os.path.join(outdir, name + '.patch'))
     finally:
